@@ -888,7 +888,17 @@ def run_harness18(cases, harness_bin, iters, sched, seed, trace_dir=None, trace_
         if p.returncode == 3:
             hung = True
         elif p.returncode != 0:
-            raise common.CheckError(f"{CYC_BIN} exited with {p.returncode}:\n{o[-1500:]}")
+            # the process died under an explored schedule (e.g. an assertion inside salsa fired
+            # and the panic could not be contained): the case that was running is a FINDING
+            part = parse_harness18(o)
+            crashed = [cid for cid, c in part.items() if not c.get("end")]
+            if not crashed:
+                raise common.CheckError(f"{CYC_BIN} exited with {p.returncode}:\n{o[-1500:]}")
+            for cid in crashed:
+                part[cid]["fails"].append(dict(i=-1, kind="crash", sched=sched,
+                                               msg=f"{CYC_BIN} died with exit status {p.returncode} while running this case: {o[-300:]!r}"))
+            out.update(part)
+            continue
         out.update(parse_harness18(o))
     import shutil
     shutil.rmtree(tmpd, ignore_errors=True)
